@@ -372,6 +372,11 @@ def _run_seq(case, res, log):
                 raise Violation("C17:counters", f"{what}: hits+misses went from {hm_before} to {hm} for one lookup")
         st = nst
         structure_check(cache, kind, st, keys, op[0] == "put", what)
+        if kind == "plain" and op[0] == "flushall":
+            if cache.next_cleaning != now + cfg["interval"]:
+                raise Violation("C17:clean-sweep", f"{what}: flush() must re-arm the cleaning timer (next_cleaning {cache.next_cleaning}, now {now}, interval {cfg['interval']})")
+            if cache.data:
+                raise Violation("C17:plain-content", f"{what}: flush() left entries behind")
         if clean_due:
             res.probes.inc("clean_sweep_fired")
             for k, v in cache.data.items():
